@@ -607,6 +607,33 @@ fn main() {
         sim_rayon::clock::reset();
     }
 
+    // the machine-size seam: available_parallelism on a simulated thread is what the run was given
+    {
+        let real = std::thread::available_parallelism().map(|n| n.get()).unwrap_or(0);
+        for want in [1usize, 3, 16, 64, 256] {
+            sim_rayon::sys::set_sim_cpus(want);
+            let prev = sim_rayon::clock::set_thread_sim_time(true);
+            let got = std::thread::available_parallelism().map(|n| n.get()).unwrap_or(0);
+            sim_rayon::clock::set_thread_sim_time(false);
+            let unmarked = std::thread::available_parallelism().map(|n| n.get()).unwrap_or(0);
+            sim_rayon::clock::set_thread_sim_time(prev);
+            evals += 1;
+            if got != want || unmarked != real {
+                bad += 1;
+                println!("MODEL-MISMATCH machine-size seam: simulated thread saw {} CPUs (want {}), unmarked thread saw {} (want {})", got, want, unmarked, real);
+            }
+        }
+        sim_rayon::sys::set_sim_cpus(0);
+        let prev = sim_rayon::clock::set_thread_sim_time(true);
+        let got = std::thread::available_parallelism().map(|n| n.get()).unwrap_or(0);
+        sim_rayon::clock::set_thread_sim_time(prev);
+        evals += 1;
+        if got != real {
+            bad += 1;
+            println!("MODEL-MISMATCH machine-size seam: off, simulated thread saw {} CPUs, real {}", got, real);
+        }
+    }
+
     // reach: the contract-free pipelines must actually vary
     let reach = [
         ("par_bridge order differs from input order in some schedule", distinct_bridge.iter().any(|s| s.ends_with("true"))),
